@@ -1,13 +1,13 @@
 /-
 The peer ranking the CODE defines (`(*peerRanking).AddPeer / Punish / Reward / ResetRanking`,
-translated from query/peer_rank.go on every run, Gen/Trans.lean; the map field `rank` is threaded
+translated from query/peer_rank.go on every run, Gen/TransRank.lean; the map field `rank` is threaded
 through each method) is the ranking of the dispatcher model (`Disp.addPeer / punish / reward /
 resetRank`), for every injective naming of peer addresses.
 -/
-import Neutrino.Gen.Trans
+import Neutrino.Gen.TransRank
 import Neutrino.Model.Dispatcher
 namespace Neutrino.Disp
-open Neutrino.Gen.Trans Neutrino.GoInt
+open Neutrino.Gen.TransRank Neutrino.GoInt
 
 /-- the code's `map[string]uint64` as the model's association list over peer ids -/
 def absRank (enc : String → Nat) (r : List (String × Nat)) : List (Nat × Nat) := r.map (fun e => (enc e.1, e.2))
